@@ -62,16 +62,16 @@ def extraction(ctx):
     ctx.extra["randomness_call_sites"] = [list(s) for s in sorted(sites)]
 
 
-def stream_processes(ctx):
+def stream_processes(ctx, only=None, runs=None):
     St = ctx.stream("O-process", "Synthesizer(...).sample() digests for 7 strategies (default, default on a sampled forest, main column by name / index 0, ML target with overflowing features, none, "
                     "single) in fresh interpreters with different PYTHONHASHSEED and perturbed global random / numpy.random state; non-trivial = multi-cluster plan")
-    runs = ctx.scale(3, 12)
+    runs = runs or ctx.scale(3, 12)
     seed = ctx.seed
     results = []
     procs = []
     for k in range(runs):
         env = dict(os.environ, PYTHONHASHSEED=str([0, 1, 4242, 99, 7, 31337, 2, 3, 5, 8, 13, 21][k]), PYTHONPATH=str(REPO) + ":" + str(VERIF / "harness"))
-        procs.append(subprocess.Popen(["/venv/bin/python", str(VERIF / "harness" / "c05_worker.py"), str(seed), str(1000 * k + 17)], env=env,
+        procs.append(subprocess.Popen(["/venv/bin/python", str(VERIF / "harness" / "c05_worker.py"), str(seed), str(1000 * k + 17)] + ([",".join(only)] if only else []), env=env,
                                       stdout=subprocess.PIPE, stderr=subprocess.PIPE, text=True))
     for k, p in enumerate(procs):
         out, err = p.communicate(timeout=1200)
